@@ -277,7 +277,9 @@ pub fn state_event_hist(id: usize, p: &Problem, k: u32, first: Option<u32>) -> V
                          ("dsigns", json!(v.dsigns)), ("dsigns_tail", json!(tail)), ("expected_tail", json!(exp_tail)),
                          ("static_reg", json!(st.static_regularization_enable && updates >= 1)),
                          ("eps", fj(v.diagonal_regularizer)), ("eps_obs", fj(eps_obs)), ("hz", json!(hz)), ("hop", json!(hop)), ("iterations", json!(iters)),
-                         ("updates", json!(updates))] {
+                         ("updates", json!(updates)),
+                         ("ldl_reg_known", json!(v.ldl_reg.is_some())), ("ldl_eps", fj(v.ldl_reg.map(|r| r.1).unwrap_or(0.0))), ("ldl_delta", fj(v.ldl_reg.map(|r| r.2).unwrap_or(0.0))),
+                         ("set_eps", fj(st.dynamic_regularization_eps)), ("set_delta", fj(st.dynamic_regularization_delta))] {
             m.insert(kk.to_string(), val);
         }
         Value::Object(m)
